@@ -18,6 +18,7 @@ import z3
 
 from pyvc import ext_C20 as X
 from pyvc import lemmas as _lemmas
+from pyvc import progression as _progression
 from pyvc.ext_C20 import CAST, RND, ImgArr
 from pyvc.values import Iter, NArr, Obj, Opaque, PDict, PList, SArr, Sym, fresh_name, to_z3, zint
 
@@ -738,9 +739,13 @@ def reg_samplers(R):
         raises={"ValueError": ("only-for-an-explicit-offset-array-(its-truth-value-is-ambiguous)", lambda E, v, o: v["offset"] is not None)},
         returns=gs_result,
         options=dict(modular=True),
-        loops={0: dict(invariant=[("z-is-the-centre-of-the-next-slice", gs_inv("z")), ("samplers-yielded-so-far", gs_inv("yielded")),
-                                  ("every-yielded-centre-is-below-zmax", gs_inv("below"))],
-                       types={"__yield__": "ref"}, modifies=["__yield__"])},
+        # the loop contract is DERIVED from the loop as written (pyvc/progression.py: start, step, bound and loop form are read off the
+        # code, the derived invariants are proved like hand-written ones), so that every such detail reaches the postconditions below;
+        # the hand-written invariants (they name the local `z` of the while form) remain the contract of a loop outside that shape
+        loops={0: _progression.derived(fallback=dict(
+            invariant=[("z-is-the-centre-of-the-next-slice", gs_inv("z")), ("samplers-yielded-so-far", gs_inv("yielded")),
+                       ("every-yielded-centre-is-below-zmax", gs_inv("below"))],
+            types={"__yield__": "ref"}, modifies=["__yield__"]))},
         ensures=[
             ("first-sample-centre-is-coord_min+resolution/2-in-each-axis", gs_post("first")),
             ("x,y-range-and-stride-of-every-sampler", gs_post("xy")),
@@ -1236,7 +1241,9 @@ def _close_all(R):
         c.ensures = [fix(x) for x in c.ensures]
         c.raises = {k: fix(x) for k, x in c.raises.items()}
         for sp in c.loops.values():
-            sp["invariant"] = [fix(x) for x in sp.get("invariant", [])]
+            sp = getattr(sp, "fallback", sp)  # a derived loop contract: its hand-written fallback
+            if isinstance(sp, dict):
+                sp["invariant"] = [fix(x) for x in sp.get("invariant", [])]
 
 
 from contracts import C20_io as _IO  # noqa: E402  (second contract file of this property: readers, dispatch, writer plumbing)
